@@ -43,18 +43,23 @@ let () =
         let lines = read_lines file in
         (* implementation's recorded dependency order per (build index, key) *)
         let impl : (int * int, int list) Hashtbl.t = Hashtbl.create 64 in
+        let impl_db : (int * int, int list) Hashtbl.t = Hashtbl.create 64 in
         if trace <> "-" then begin
           let b = ref 0 in
           List.iter (fun l -> match String.split_on_char ' ' l with
               | "build" :: n :: _ -> b := int_of_string n
               | "deps" :: k :: ds -> Hashtbl.replace impl (!b, int_of_string k) (List.map int_of_string (List.filter (fun x -> x <> "") ds))
+              | "dbrow" :: k :: _ :: _ :: _ :: _ :: ds ->
+                (* fallback when the in-memory dump is unavailable (keys that print alike): the order stored in the database *)
+                Hashtbl.replace impl_db (!b, int_of_string k)
+                  (List.filter_map (fun x -> match String.split_on_char ':' x with a :: _ when a <> "" && a <> "?" -> Some (int_of_string a) | _ -> None) ds)
               | _ -> ()) (read_lines trace)
         end;
         let out = Buffer.create 4096 in
         let say s = Buffer.add_string out s; Buffer.add_char out '\n' in
         let cur_build = ref 0 in
         let order _epoch k (requested : dep list) : dep list =
-          match Hashtbl.find_opt impl (!cur_build, int_of_n k) with
+          match (match Hashtbl.find_opt impl (!cur_build, int_of_n k) with Some x -> Some x | None -> Hashtbl.find_opt impl_db (!cur_build, int_of_n k)) with
           | None -> requested
           | Some keys ->
             let n = List.length requested in
